@@ -19,3 +19,36 @@ pub fn c16_secret_key_enum_import(bytes: &[u8])
     let r = SecretKeyEnum::try_from(bytes);
     assert(r is Ok ==> bytes@.len() == 33 && ske_scalar(r->Ok_0).val() != 0);
 }
+
+/// point-valued types with an exact byte length: a value is returned only for input of exactly the
+/// group's encoding length that IS the canonical encoding of the returned subgroup point (so an
+/// off-curve x, a point outside the subgroup, wrong flag bits, truncated or extended input are all
+/// refused: none of them is `enc(p)` for a group element p — A-ENC, checked decoder)
+pub fn c16_point_import(bytes: &[u8])
+{
+    let r = PublicKey::try_from(bytes);
+    assert(r is Ok ==> bytes@.len() == pk_len() && pk_valid_enc(bytes@) && pk_enc(r->Ok_0.0) == bytes@);
+    let r2 = MultiPublicKey::try_from(bytes);
+    assert(r2 is Ok ==> bytes@.len() == pk_len() && pk_valid_enc(bytes@) && pk_enc(r2->Ok_0.0) == bytes@);
+    let r3 = ProofOfPossession::try_from(bytes);
+    assert(r3 is Ok ==> bytes@.len() == sig_len() && sig_valid_enc(bytes@) && sig_enc(r3->Ok_0.0) == bytes@);
+}
+
+/// commitment secrets and challenges imported from bytes are never zero and have exactly 32 bytes
+pub fn c16_commitment_scalar_import(bytes: &[u8], arr: &[u8; 32])
+{
+    let r = ProofCommitmentSecret::try_from(bytes);
+    assert(r is Ok ==> bytes@.len() == 32 && r->Ok_0.0.val() != 0);
+    let r2 = ProofCommitmentChallenge::try_from(bytes);
+    assert(r2 is Ok ==> bytes@.len() == 32 && r2->Ok_0.0.val() != 0);
+    let b = ProofCommitmentSecret::from_be_bytes(arr);
+    let l = ProofCommitmentSecret::from_le_bytes(arr);
+    let b2 = ProofCommitmentChallenge::from_be_bytes(arr);
+    let l2 = ProofCommitmentChallenge::from_le_bytes(arr);
+    assert(b.is_some_spec() ==> b.value().0.val() != 0);
+    assert(l.is_some_spec() ==> l.value().0.val() != 0);
+    assert(b2.is_some_spec() ==> b2.value().0.val() != 0);
+    assert(l2.is_some_spec() ==> l2.value().0.val() != 0);
+    proof { lemma_all_zero_reverse(arr@); }
+    assert(all_zero(arr@) ==> !b.is_some_spec() && !l.is_some_spec() && !b2.is_some_spec() && !l2.is_some_spec());
+}
